@@ -133,7 +133,8 @@ class PlanGen:
         mon = None
         if self.signals and rng.random() < monitor:
             mon = rng.choice(self.signals)
-            body.append(msg(S, "monitor", mon, run=run, name=f"{mon}_monitor"))
+            mkw = {"event_type": rng.choice(["value", "status"])} if getattr(self, "monitor_opts", 0.0) and rng.random() < self.monitor_opts else {}
+            body.append(msg(S, "monitor", mon, run=run, name=f"{mon}_monitor", **mkw))  # extra kwargs go to obj.subscribe()
         fl = None
         if self.flyers and rng.random() < fly:
             fl = rng.choice(self.flyers)
